@@ -86,7 +86,7 @@ void barrier(int id, int parties);    // simulator-level barrier for phased prog
 void yield_hint();
 void drain_self();             // TSO: make all own buffered stores visible
 void note_progress();          // harness: the calling thread made progress (resets spin classification of others)
-void mark_client(bool on);     // the calling thread is a client thread (counts for overlap statistics)
+void mark_client(bool on, int client_index = -1);     // the calling thread is a client thread (counts for overlap statistics)
 
 // ---- arena (arena.cpp)
 void* arena_alloc(size_t size, size_t align);
